@@ -21,6 +21,7 @@
 EXTENDS Integers, Sequences, FiniteSets, TLC
 
 CONSTANTS Uploaders, Files, WeekOfFile, Weeks,
+          LateFiles,      \* count files that appear later (written by a program that was still running)
           MaxRuns,        \* runs per uploader
           Replies,        \* subset of {"200", "4xx", "5xx", "none"}
           AllowKill
@@ -30,7 +31,7 @@ Rep(by, fs, c) == [st |-> "file", by |-> by, files |-> fs, complete |-> c]
 FilesOf(w) == {f \in Files : WeekOfFile[f] = w}
 NoBody == [st |-> "none"]
 
-VARIABLES count, ready, localr, uploaded, lock, acks, posts,
+VARIABLES count, ready, localr, uploaded, lock, acks, posts, arrived,
           alive, runs, pc,
           seenCount,      \* count files listed by ReadDir
           parseq,         \* files still to be read in findWork
@@ -43,7 +44,7 @@ VARIABLES count, ready, localr, uploaded, lock, acks, posts,
           created,        \* weeks whose upload report this run (thinks it) created, in order
           readyq,         \* ready reports still to upload, in order
           buf             \* contents read by uploadReport
-dirv == <<count, ready, localr, uploaded, lock>>
+dirv == <<count, ready, localr, uploaded, lock, arrived>>
 srv == <<acks, posts>>
 loc == <<runs, pc, seenCount, parseq, collected, seenReady, seenUp, weeks, wk, delq, after, created, readyq, buf>>
 vars == <<dirv, srv, alive, loc>>
@@ -54,7 +55,7 @@ RECURSIVE Sorted(_)
 Sorted(S) == IF S = {} THEN <<>> ELSE LET m == CHOOSE x \in S : \A y \in S : x <= y IN <<m>> \o Sorted(S \ {m})
 
 Init ==
-  /\ count = Files
+  /\ count = Files \ LateFiles /\ arrived = {}
   /\ ready = [w \in Weeks |-> Absent] /\ localr = [w \in Weeks |-> Absent] /\ uploaded = [w \in Weeks |-> Absent]
   /\ lock = [w \in Weeks |-> FALSE]
   /\ acks = {} /\ posts = {}
@@ -122,7 +123,7 @@ Del(u) == LET f == Head(delq[u]) IN        \* os.Remove(count file)
   /\ count' = count \ {f}
   /\ delq' = S(delq, u, Tail(delq[u]))
   /\ pc' = S(pc, u, IF Len(delq[u]) > 1 THEN "DEL" ELSE NextWeekPc(weeks[u]))
-  /\ U(<<ready, localr, uploaded, lock, srv, alive, runs, seenCount, parseq, collected, seenReady, seenUp, weeks, wk, after, created, readyq, buf>>)
+  /\ U(<<arrived, ready, localr, uploaded, lock, srv, alive, runs, seenCount, parseq, collected, seenReady, seenUp, weeks, wk, after, created, readyq, buf>>)
 DelOrNext(u, w) == IF MyFiles(u, w) = <<>> THEN /\ pc' = S(pc, u, NextWeekPc(weeks[u])) /\ U(delq)
                    ELSE /\ pc' = S(pc, u, "DEL") /\ delq' = S(delq, u, MyFiles(u, w))
 CRStatLocal(u) == LET w == wk[u] IN        \* os.Stat(local.<w>.json): exists => delete the files, no report
@@ -139,24 +140,24 @@ CRMkReady(u) == LET w == wk[u] IN          \* exclusiveWrite(<w>.json): O_CREATE
      THEN /\ U(ready) /\ pc' = S(pc, u, "CR_mklocal")
      ELSE /\ ready' = [ready EXCEPT ![w] = Rep(u, {f \in collected[u] : WeekOfFile[f] = w}, FALSE)]
           /\ pc' = S(pc, u, "CR_wrready")
-  /\ U(<<count, localr, uploaded, lock, srv, alive, runs, seenCount, parseq, collected, seenReady, seenUp, weeks, wk, delq, after, created, readyq, buf>>)
+  /\ U(<<arrived, count, localr, uploaded, lock, srv, alive, runs, seenCount, parseq, collected, seenReady, seenUp, weeks, wk, delq, after, created, readyq, buf>>)
 CRWrReady(u) == LET w == wk[u] IN          \* f.Write(contents)
   /\ pc[u] = "CR_wrready"
   /\ ready' = IF ready[w].st = "file" /\ ready[w].by = u THEN [ready EXCEPT ![w].complete = TRUE] ELSE ready
   /\ pc' = S(pc, u, "CR_mklocal")
-  /\ U(<<count, localr, uploaded, lock, srv, alive, runs, seenCount, parseq, collected, seenReady, seenUp, weeks, wk, delq, after, created, readyq, buf>>)
+  /\ U(<<arrived, count, localr, uploaded, lock, srv, alive, runs, seenCount, parseq, collected, seenReady, seenUp, weeks, wk, delq, after, created, readyq, buf>>)
 CRMkLocal(u) == LET w == wk[u] IN          \* exclusiveWrite(local.<w>.json)
   /\ pc[u] = "CR_mklocal"
   /\ IF localr[w].st = "file"
      THEN /\ U(localr) /\ pc' = S(pc, u, "CR_done")
      ELSE /\ localr' = [localr EXCEPT ![w] = Rep(u, {f \in collected[u] : WeekOfFile[f] = w}, FALSE)]
           /\ pc' = S(pc, u, "CR_wrlocal")
-  /\ U(<<count, ready, uploaded, lock, srv, alive, runs, seenCount, parseq, collected, seenReady, seenUp, weeks, wk, delq, after, created, readyq, buf>>)
+  /\ U(<<arrived, count, ready, uploaded, lock, srv, alive, runs, seenCount, parseq, collected, seenReady, seenUp, weeks, wk, delq, after, created, readyq, buf>>)
 CRWrLocal(u) == LET w == wk[u] IN
   /\ pc[u] = "CR_wrlocal"
   /\ localr' = IF localr[w].st = "file" /\ localr[w].by = u THEN [localr EXCEPT ![w].complete = TRUE] ELSE localr
   /\ pc' = S(pc, u, "CR_done")
-  /\ U(<<count, ready, uploaded, lock, srv, alive, runs, seenCount, parseq, collected, seenReady, seenUp, weeks, wk, delq, after, created, readyq, buf>>)
+  /\ U(<<arrived, count, ready, uploaded, lock, srv, alive, runs, seenCount, parseq, collected, seenReady, seenUp, weeks, wk, delq, after, created, readyq, buf>>)
 (* both files written (or found): delete the count files, remember the report as ready (urgent internal) *)
 CRDone(u) == LET w == wk[u] IN
   /\ pc[u] = "CR_done"
@@ -182,7 +183,7 @@ UPLock(u) == LET w == wk[u] IN             \* os.OpenFile(<w>.json.lock, O_CREAT
   /\ pc[u] = "UP_lock"
   /\ IF lock[w] THEN /\ U(lock) /\ pc' = S(pc, u, "UP_next")
      ELSE /\ lock' = [lock EXCEPT ![w] = TRUE] /\ pc' = S(pc, u, "UP_stat")
-  /\ U(<<count, ready, localr, uploaded, srv, alive, runs, seenCount, parseq, collected, seenReady, seenUp, weeks, wk, delq, after, created, readyq, buf>>)
+  /\ U(<<arrived, count, ready, localr, uploaded, srv, alive, runs, seenCount, parseq, collected, seenReady, seenUp, weeks, wk, delq, after, created, readyq, buf>>)
 UPStat(u) == LET w == wk[u] IN             \* os.Stat(upload/<w>.json): already uploaded?
   /\ pc[u] = "UP_stat"
   /\ pc' = S(pc, u, IF uploaded[w].st = "file" THEN "UP_rmdup" ELSE "UP_post")
@@ -191,7 +192,7 @@ UPRmDup(u) == LET w == wk[u] IN            \* os.Remove(<w>.json)
   /\ pc[u] = "UP_rmdup"
   /\ ready' = [ready EXCEPT ![w] = Absent]
   /\ pc' = S(pc, u, "UP_unlock")
-  /\ U(<<count, localr, uploaded, lock, srv, alive, runs, seenCount, parseq, collected, seenReady, seenUp, weeks, wk, delq, after, created, readyq, buf>>)
+  /\ U(<<arrived, count, localr, uploaded, lock, srv, alive, runs, seenCount, parseq, collected, seenReady, seenUp, weeks, wk, delq, after, created, readyq, buf>>)
 UPPost(u) == LET w == wk[u]  b == buf[u] IN       \* http.Post
   /\ pc[u] = "UP_post"
   /\ \E r \in Replies :
@@ -204,27 +205,27 @@ UPMkMark(u) == LET w == wk[u]  b == buf[u] IN     \* os.WriteFile(upload/<w>.jso
   /\ pc[u] = "UP_mkmark"
   /\ uploaded' = [uploaded EXCEPT ![w] = Rep(b.by, b.files, FALSE)]
   /\ pc' = S(pc, u, "UP_wrmark")
-  /\ U(<<count, ready, localr, lock, srv, alive, runs, seenCount, parseq, collected, seenReady, seenUp, weeks, wk, delq, after, created, readyq, buf>>)
+  /\ U(<<arrived, count, ready, localr, lock, srv, alive, runs, seenCount, parseq, collected, seenReady, seenUp, weeks, wk, delq, after, created, readyq, buf>>)
 UPWrMark(u) == LET w == wk[u] IN                  \* ... then write
   /\ pc[u] = "UP_wrmark"
   /\ uploaded' = [uploaded EXCEPT ![w].complete = buf[u].complete]
   /\ pc' = S(pc, u, "UP_rmready")
-  /\ U(<<count, ready, localr, lock, srv, alive, runs, seenCount, parseq, collected, seenReady, seenUp, weeks, wk, delq, after, created, readyq, buf>>)
+  /\ U(<<arrived, count, ready, localr, lock, srv, alive, runs, seenCount, parseq, collected, seenReady, seenUp, weeks, wk, delq, after, created, readyq, buf>>)
 UPRmReady(u) == LET w == wk[u] IN                 \* os.Remove(<w>.json) after the marker was written
   /\ pc[u] = "UP_rmready"
   /\ ready' = [ready EXCEPT ![w] = Absent]
   /\ pc' = S(pc, u, "UP_unlock")
-  /\ U(<<count, localr, uploaded, lock, srv, alive, runs, seenCount, parseq, collected, seenReady, seenUp, weeks, wk, delq, after, created, readyq, buf>>)
+  /\ U(<<arrived, count, localr, uploaded, lock, srv, alive, runs, seenCount, parseq, collected, seenReady, seenUp, weeks, wk, delq, after, created, readyq, buf>>)
 UPRm4xx(u) == LET w == wk[u] IN                   \* client error: os.Remove(<w>.json), not marked uploaded
   /\ pc[u] = "UP_rm4xx"
   /\ ready' = [ready EXCEPT ![w] = Absent]
   /\ pc' = S(pc, u, "UP_unlock")
-  /\ U(<<count, localr, uploaded, lock, srv, alive, runs, seenCount, parseq, collected, seenReady, seenUp, weeks, wk, delq, after, created, readyq, buf>>)
+  /\ U(<<arrived, count, localr, uploaded, lock, srv, alive, runs, seenCount, parseq, collected, seenReady, seenUp, weeks, wk, delq, after, created, readyq, buf>>)
 UPUnlock(u) == LET w == wk[u] IN                  \* deferred os.Remove(lock)
   /\ pc[u] = "UP_unlock"
   /\ lock' = [lock EXCEPT ![w] = FALSE]
   /\ pc' = S(pc, u, "UP_next")
-  /\ U(<<count, ready, localr, uploaded, srv, alive, runs, seenCount, parseq, collected, seenReady, seenUp, weeks, wk, delq, after, created, readyq, buf>>)
+  /\ U(<<arrived, count, ready, localr, uploaded, srv, alive, runs, seenCount, parseq, collected, seenReady, seenUp, weeks, wk, delq, after, created, readyq, buf>>)
 
 InternalPCs == {"RP_pick", "CR_done", "UP_next"}
 Pending(u) == alive[u] /\ pc[u] \in InternalPCs
@@ -234,12 +235,15 @@ Visible(u) == \/ Start(u) \/ FWReadDir(u) \/ FWParse(u) \/ FWReadUp(u) \/ Del(u)
               \/ CRStatLocal(u) \/ CRStatReady(u) \/ CRMkReady(u) \/ CRWrReady(u) \/ CRMkLocal(u) \/ CRWrLocal(u)
               \/ UPRead(u) \/ UPLock(u) \/ UPStat(u) \/ UPRmDup(u) \/ UPPost(u) \/ UPMkMark(u) \/ UPWrMark(u)
               \/ UPRmReady(u) \/ UPRm4xx(u) \/ UPUnlock(u)
+Arrive(f) == /\ Settled /\ f \in LateFiles \ arrived
+             /\ count' = count \cup {f} /\ arrived' = arrived \cup {f}
+             /\ U(<<ready, localr, uploaded, lock, srv, alive, loc>>)
 Kill(u) == /\ AllowKill /\ alive[u] /\ pc[u] # "Start" /\ Settled
            /\ alive' = S(alive, u, FALSE)
            /\ U(<<dirv, srv, loc>>)
 Next == IF \E u \in Uploaders : Pending(u)
         THEN \E u \in Uploaders : Pending(u) /\ Internal(u)
-        ELSE \E u \in Uploaders : (alive[u] /\ Visible(u)) \/ Kill(u)
+        ELSE (\E u \in Uploaders : (alive[u] /\ Visible(u)) \/ Kill(u)) \/ (\E f \in LateFiles : Arrive(f))
 Step(u) == IF Pending(u) THEN Internal(u) ELSE (Settled /\ alive[u] /\ Visible(u))
 Spec == Init /\ [][Next]_vars
 FairSpec == Spec /\ \A u \in Uploaders : WF_vars(Step(u))
@@ -250,15 +254,19 @@ NoKills == \A u \in Uploaders : alive[u]
 (* C07 *)
 (* crash-free quiescence: every week has exactly one complete local report over exactly its files, and they are gone *)
 OneLocalReport == (Quiet /\ \A u \in Uploaders : runs[u] >= 1) =>
-                    \A w \in Weeks : /\ localr[w].st = "file" /\ localr[w].complete
-                                     /\ localr[w].files = FilesOf(w) /\ FilesOf(w) \cap count = {}
+                    \A w \in Weeks : (FilesOf(w) \ (LateFiles \ arrived) # {}) =>
+                                     /\ localr[w].st = "file" /\ localr[w].complete
+                                     /\ (FilesOf(w) \ LateFiles) \subseteq localr[w].files /\ localr[w].files \subseteq FilesOf(w)
+                                     /\ (FilesOf(w) \ LateFiles) \cap count = {}
 (* a count file is removed only when a report for its week exists in that state *)
 DeleteOnlyAfterReport == [][\A f \in Files : (f \in count /\ f \notin count') =>
                               LET w == WeekOfFile[f] IN localr[w].st = "file" \/ ready[w].st = "file" \/ uploaded[w].st = "file"]_vars
 (* a report, once complete, never changes and is never replaced by a different one *)
 ReportStable == [][\A w \in Weeks : (localr[w].st = "file" /\ localr[w].complete) => localr'[w] = localr[w]]_vars
 (* no file is counted in two different reports of its week *)
-NoDoubleCount == \A w \in Weeks : (localr[w].st = "file" /\ ready[w].st = "file") => TRUE
+(* the report to upload is the week's one report: never a second or different one *)
+ReadyMatchesLocal == \A w \in Weeks : (localr[w].st = "file" /\ localr[w].complete /\ ready[w].st = "file" /\ ready[w].complete)
+                                          => ready[w].files = localr[w].files
 (* C08 *)
 OneBodyPerWeek == \A w \in Weeks : Cardinality({a.body : a \in {x \in acks : x.w = w}}) <= 1
 NoResendAfterRecorded == \A q \in posts : ~q.after
